@@ -2,6 +2,8 @@
 
 from __future__ import annotations
 
+import warnings
+
 import numpy as np
 
 from .. import lib, ref
@@ -17,7 +19,7 @@ RULE = ("nodes_connected, get_coord_neighbors, coord_degrees, gen_connected_comp
         "structures up to 15x15 incl. oblong. non-trivial & distinct = distinct connection structures with >= 1 edge")
 ASSUMPTIONS = ["from_adj_list only on square mazes whose highest row and column index occur in a connection (documented precondition)"]
 NSHARDS = {"quick": 16, "thorough": 16}
-THRESHOLDS = {"quick": {"c13:same-object-after-edit:in-place": 100, "c13:same-object-after-edit:re-bound": 100, 
+THRESHOLDS = {"quick": {"c13:objects-built-another-way": 400, "c13:reloaded-mazes": 40, "c13:same-object-after-edit:in-place": 100, "c13:same-object-after-edit:re-bound": 100, 
     "c13:nodes_connected": 1000, "c13:neighbors": 1000, "c13:degrees": 1000, "c13:component": 1000, "c13:valid-path": 1000,
     "c13:invalid-path:broken": 300, "c13:invalid-path:oob-neg": 300, "c13:invalid-path:oob-big": 300, "c13:empty-path": 1000, "c13:one-cell-path": 3000, "c13:forks-on-walks": 300, "c13:is_connection-large-grid": 12,
     "c13:adj-list": 1000, "c13:is_connection": 1000, "c13:from_adj_list": 300, "c13:oblong": 100, "c13:forks": 500,
@@ -256,6 +258,61 @@ def _forks(ctx, cl, g, case, rng):
         ctx.check(list(map(int, idx2)) == exp2, "C13/forking-points-endpoints-wrong", f"got {list(idx2)} expected {exp2}", c2)
 
 
+def _reloaded(ctx, n):
+    """solved mazes as they come back from a dataset round trip (full and both compact formats): the object's own solution, fed back
+    into the object's own queries, must be judged like any other path"""
+    from maze_dataset import MazeDataset, MazeDatasetConfig
+
+    for j in range(n):
+        if not ctx.mine(j):
+            continue
+        rng = ctx.sub_rng("reloaded", j)
+        g_n = int(rng.integers(3, 9))
+        mazes, truth = [], []
+        for t in range(int(rng.integers(2, 6))):
+            fam, cl = ref.random_structure(g_n, g_n, rng)
+            g = Graph(cl)
+            cells = ref.all_cells(g_n, g_n)
+            s_ = cells[int(rng.integers(len(cells)))]
+            comp = sorted(g.component_of(s_))
+            e_ = comp[int(rng.integers(len(comp)))]
+            path = g.shortest_path(s_, e_, rng)
+            mazes.append(lib.solved(cl, path)); truth.append((cl, g, path))
+        with warnings.catch_warnings():
+            warnings.simplefilter("ignore")
+            ds = MazeDataset(MazeDatasetConfig(name=f"c13r{j}", grid_n=g_n, n_mazes=len(mazes)), mazes)
+            fmt = ["_serialize_minimal", "_serialize_minimal_soln_cat", "_serialize_full"][j % 3]
+            case0 = dict(kind="reloaded", format=fmt, grid_n=g_n)
+            try:
+                back = MazeDataset.load(getattr(ds, fmt)())
+            except Exception as e:  # noqa: BLE001
+                ctx.tally(f"c13:reload-failed:{type(e).__name__}(not judged here)")
+                continue
+        for t, (m, (cl, g, path)) in enumerate(zip(back.mazes, truth)):
+            case = dict(case0, index=t, cl=cl, path=path, solution_dtype=str(np.asarray(m.solution).dtype))
+            if not (np.asarray(m.solution).shape == (len(path), 2) and [tuple(int(x) for x in c) for c in m.solution] == path
+                    and np.array_equal(np.asarray(m.connection_list, dtype=bool), cl)):
+                ctx.tally("c13:reloaded-maze-differs(not judged here)")
+                continue
+            ctx.ev(); ctx.tally("c13:reloaded-mazes")
+            with ctx.guard("C13/reloaded", case):
+                ctx.check(bool(m.is_valid_path(m.solution)) is True, "C13/is_valid_path-wrong",
+                          f"the maze's own (valid) solution is reported invalid after a {fmt} round trip (solution dtype {np.asarray(m.solution).dtype})", case)
+                for i in range(len(path) - 1):
+                    a, b = m.solution[i], m.solution[i + 1]
+                    ctx.check(bool(m.nodes_connected(a, b)) and bool(m.nodes_connected(b, a)), "C13/nodes_connected-wrong",
+                              f"step {path[i]} -> {path[i + 1]} of the maze's own solution (dtype {np.asarray(m.solution).dtype}) reported unconnected in one orientation", dict(case, a=path[i], b=path[i + 1]))
+                for i in range(0, len(path), max(1, len(path) // 4)):
+                    nb = _tl(m.get_coord_neighbors(m.solution[i]))
+                    ctx.check(sorted(nb) == sorted(g.adj[path[i]]), "C13/neighbors-wrong", f"cell {path[i]} (taken from the reloaded solution): got {nb} expected {sorted(g.adj[path[i]])}", case)
+                n_ = len(path)
+                exp_forks = [i for i, c in enumerate(path) if g.degree(c) > (1 if i in (0, n_ - 1) else 2)]
+                idx, _c = m.get_solution_forking_points()
+                fidx, _f = m.get_solution_path_following_points()
+                ctx.check(list(map(int, idx)) == exp_forks and list(map(int, fidx)) == [i for i in range(n_) if i not in exp_forks],
+                          "C13/forking-points-wrong", f"reloaded maze: forks {list(idx)} following {list(fidx)} expected forks {exp_forks}", case)
+
+
 def run(ctx):
     from maze_dataset.utils import lattice_connection_array, lattice_max_degrees, manhattan_distance
 
@@ -293,6 +350,28 @@ def run(ctx):
         ctx.nontrivial(R, C, cl)
         for _ in range(3):
             _forks(ctx, cl, g, case, rng)
+        # the same structure as a maze object that came into being another way: read back from its own pictures (colour image, black /
+        # white mask, the mask as 0/1 integers, one grey channel 0/255), from its text drawing, from its adjacency list
+        if j % 4 == 1 and R * C >= 2:
+            from maze_dataset.maze.lattice_maze import LatticeMaze
+            px = lib.lattice(cl).as_pixels()
+            routes = {"from_pixels(rgb)": lambda: LatticeMaze.from_pixels(px),
+                      "from_pixels(bool mask)": lambda: LatticeMaze.from_pixels(px[..., 0] > 0),
+                      "from_pixels(0/1 integers)": lambda: LatticeMaze.from_pixels((px[..., 0] > 0).astype(np.int64)),
+                      "from_pixels(grey channel 0/255)": lambda: LatticeMaze.from_pixels(np.array(px[..., 0])),
+                      "from_ascii": lambda: LatticeMaze.from_ascii(lib.lattice(cl).as_ascii())}
+            for rname, make in routes.items():
+                try:
+                    mz2 = make()
+                except Exception as e:  # noqa: BLE001
+                    ctx.tally(f"c13:route-not-available:{rname}:{type(e).__name__}(not judged)")
+                    continue
+                cl_now = np.asarray(mz2.connection_list)
+                if cl_now.shape != cl.shape or not np.array_equal(cl_now.astype(bool), cl):
+                    ctx.tally(f"c13:route-gives-another-structure:{rname}(not judged here)")
+                    continue
+                ctx.tally("c13:objects-built-another-way")
+                check_structure(ctx, cl, dict(kind="big-other-route", route=rname, family=fam, shape=(R, C), cl=cl), False, rng, maze=mz2)
         # the same object after its connection structure changed (walls opened / closed in place, or the array re-bound the way
         # gen_dfs_percolation does): every view is judged again against the structure the object holds now
         slots = ref.lattice_edge_slots(R, C)
@@ -319,6 +398,7 @@ def run(ctx):
                 _forks(ctx, cl2, g2, dict(kind="big-edited", how=how, shape=(R, C), cl=cl2), rng)
         if j < 2:
             ctx.sample(case)
+    _reloaded(ctx, 24 if ctx.quick else 240)
     # the batch edge test on large grids with the int8 edge arrays the library itself produces (row + col past 127)
     from maze_dataset.token_utils import is_connection as _isc
     for j, (R, C) in enumerate([(70, 70), (100, 100), (127, 127), (2, 127), (64, 65), (120, 40)]):
